@@ -137,6 +137,13 @@ func (c07) RunCase(c *fw.Ctx, rng *fw.RNG, batch, i int) {
 		} else {
 			c.Deviate("C07:json-form-unparseable:"+errClass(err), fmt.Sprintf("ParseJSONSelector failed on %s: %v", js.String(), err))
 		}
+		// the one-step form of the same route
+		if sel, err := selectorparse.ParseAndCompileJSONSelector(js.String()); err == nil && sel != nil {
+			cs = append(cs, compiled{"ParseAndCompileJSONSelector(DAG-JSON text)", sel, refsel.SortFields(s)})
+			c.Count("compiled_via_json_one_step", 1)
+		} else {
+			c.Deviate("C07:json-form-unparseable:one-step:"+errClass(err), fmt.Sprintf("ParseAndCompileJSONSelector on %s returned selector nil=%v, err=%v", js.String(), sel == nil, err))
+		}
 	}
 	nontrivial := false
 	for _, cc := range cs {
